@@ -14,7 +14,7 @@ META = {
 }
 
 THEOREMS = ["C11.heap_order_restored", "C11.heap_ops_preserve_order", "C11.minimum_is_reported", "C11.heap_contents_preserved",
-            "C11.interleaving_is_two_heaps", "C11.missed_count_is_boundaries", "C11.count_never_exceeds_boundaries", "C11.oneshot_never_refires"]
+            "C11.interleaving_is_two_heaps", "C11.reprogram_when_root_changes", "C11.missed_count_is_boundaries", "C11.count_never_exceeds_boundaries", "C11.oneshot_never_refires"]
 
 
 def run(ctx):
